@@ -10,25 +10,26 @@ class Proxy:
 
     nested = True      # a module run through a proxy does not run other modules through proxies again
 
-    def __init__(self, ctx, select, as_rule):
-        self._ctx, self._sel, self._as = ctx, select, as_rule
+    def __init__(self, ctx, select, as_rule, exclude=()):
+        self._ctx, self._sel, self._as, self._ex = ctx, select, as_rule, tuple(exclude)
 
     def __getattr__(self, name):
         return getattr(self._ctx, name)
 
-    def _on(self, rule):
-        return any(rule == s or rule.startswith(s) for s in self._sel)
+    def _on(self, rule, key=""):
+        # `exclude`: instances on functions that are not part of the borrowing property (matched on the function key)
+        return any(rule == s or rule.startswith(s) for s in self._sel) and not any(x in (key or "") for x in self._ex)
 
     def ok(self, rule, key, detail="", loc=None):
-        if self._on(rule):
+        if self._on(rule, key):
             self._ctx.ok(self._as, "[%s] %s" % (rule, key), detail, loc)
 
     def violation(self, rule, fn, construct, msg, loc=None, path=None):
-        if self._on(rule):
+        if self._on(rule, fn):
             self._ctx.violation(self._as, fn, "[%s] %s" % (rule, construct), msg, loc, path)
 
     def check(self, cond, rule, fn, construct, msg, detail="", loc=None, path=None):
-        if self._on(rule):
+        if self._on(rule, fn):
             self._ctx.check(cond, self._as, fn, "[%s] %s" % (rule, construct), msg, detail, loc, path)
 
     def missing(self, rule, what):
@@ -36,7 +37,7 @@ class Proxy:
             self._ctx.missing(self._as, what)
 
     def unrecognised(self, rule, fn, what, msg):
-        if self._on(rule):
+        if self._on(rule, fn):
             self._ctx.unrecognised(self._as, fn, "[%s] %s" % (rule, what), msg)
 
     def floor(self, rule, what, n, least):
